@@ -205,3 +205,6 @@ pub proof fn lemma_pst_push(s0: PSt, y: Scalar, es: Seq<Scalar>, e: Scalar, t: n
     assert(es2.take(t as int) =~= es);
     lemma_pst_prefix(s0, y, es2, t, t);
 }
+pub open spec fn prover_msgs_exist(st: RangeStatement<P>, w: RangeWitness, pr: RangeProof<P>, ch: (Scalar, Scalar, Seq<Scalar>, Scalar)) -> bool {
+    exists|nn: PNonces| #[trigger] prover_msgs_ok(st, w, pr, ch, nn)
+}
